@@ -342,9 +342,10 @@ def reentrancy_mark_rule(prog, chk):
         for bb, i, st in field_stores(b, "callstack::CallStack", "active_trap_signals"):
             if fn not in (CS + "::new", "<" + CS + " as core::default::Default>::default"):
                 chk.fail("R16.6", fn, "in-progress-marks-replaced", "%s replaces the whole set of trap in-progress marks (%s)" % (fn, b.loc(b.blocks[bb].term.line)))
-    chk.floor("R16.6", "uses of the in-progress marks", n, 4)
+    chk.floor("R16.6", "uses of the in-progress marks", n, 3)
     callers = prog.callers_of(CS + "::clear_active_trap_signals", crates=SHIPPED)
-    chk.floor("R16.6", "callers of clear_active_trap_signals", len(callers), 1)
+    if not callers:
+        chk.ok("R16.6", "marks-never-cleared-wholesale", "clear_active_trap_signals has no caller", nontrivial=False, function=CS + "::clear_active_trap_signals")
     for b, bb, t in callers:
         fn = owner(b.name)
         d = defs_of(b)
